@@ -132,3 +132,176 @@ def run(ctx):
         cs = b.calls_matching(r"<impl char>::to_digit$")
         ok = bool(cs) and all(const_value(b.term_of_operand(t["args"][1])) == 16 for _, t in cs)
         ctx.ob(R, fn, "to_digit(16)", ok, "base16 decoding must use radix 16")
+    rule_tail(ctx, F)
+    rule_state(ctx, F)
+
+
+# ---------------------------------------------------------------------------
+# C18.tail / C18.state: sibling agreement of the incremental decoders
+# ---------------------------------------------------------------------------
+import re as _re
+
+from mirlib import BranchFacts, strip, show
+from rulelib import bool_facts, return_assignments, facts_at
+
+
+def _err_only(b, start):
+    """Every path from `start` to a return assigns Err / diverges (never Ok / Some / unit)."""
+    rets = {rb: kind for rb, si, kind, term in return_assignments(b)}
+    reach = b.reach_from(start)
+    kinds = {rets[x] for x in reach if x in rets}
+    return bool(kinds) and kinds <= {"Err"}
+
+
+def _next_switches(b):
+    """[(bb, {value: target})] for integer switches on self.next"""
+    out = []
+    for bi in sorted(b.reachable_blocks()):
+        t = b.blocks[bi]["t"]
+        if t["k"] != "switch" or t["ty"] == "bool":
+            continue
+        d = deep_strip(b.term_of_operand(t["d"]))
+        if d[0] == "field" and d[2] == "next":
+            out.append((bi, {v: tb for v, tb in t["v"]}, t["o"]))
+    return out
+
+
+def _tail_reject_set(b):
+    """Values of self.next for which the tail handler can only fail."""
+    rej = set()
+    for bi, arms, other in _next_switches(b):
+        for v, tb in arms.items():
+            if _err_only(b, tb):
+                rej.add(v)
+    return rej
+
+
+def _valid_tails(bits, upto):
+    """Symbol counts n < upto whose last symbol is needed: ceil(8*floor(bits*n/8)/bits) == n."""
+    ok = set()
+    for n in range(1, upto):
+        by = (bits * n) // 8
+        if by > 0 and -(-8 * by // bits) == n:
+            ok.add(n)
+    return ok
+
+
+def rule_tail(ctx, F):
+    R = "C18.tail"
+    ctx.floor(R, 4)
+    want_reject = set(range(1, 8)) - _valid_tails(5, 8)      # {1, 3, 6}
+    for fn in ("utils::base32::Decoder::<Builder>::finalize",
+               "<utils::base32::SymbolConverter as base::scan::ConvertSymbols<Sym, Error>>::process_tail"):
+        b = F.body(fn)
+        if not ctx.anchor(R, fn, b):
+            continue
+        got = _tail_reject_set(b)
+        ctx.ob(R, b, "rejected tail lengths == {1,3,6}", got == want_reject,
+               "a Base32 tail of n symbols is well-formed iff its last symbol contributes bits to a whole octet "
+               "(n in {2,4,5,7}); this function rejects %s" % sorted(got))
+    # octets produced for each accepted tail length: floor(5n/8)
+    b = F.body("utils::base32::Decoder::<Builder>::finalize")
+    if b is not None:
+        for bi, arms, other in _next_switches(b):
+            bad = []
+            for v, tb in arms.items():
+                if v in want_reject or v == 0 or v > 7:
+                    continue
+                # calls to octet_k reachable from this arm before the join
+                seen = set()
+                cur = tb
+                guard = 0
+                while guard < 40:
+                    guard += 1
+                    t = b.blocks[cur]["t"]
+                    if t["k"] == "call" and t["fn"] and _re.search(r"::octet_(\d)$", t["fn"]):
+                        seen.add(int(t["fn"][-1]))
+                    nx = [s for s, _ in b.succs(cur)]
+                    if len(nx) != 1:
+                        break
+                    if len(b.preds().get(nx[0], [])) > 1:
+                        break
+                    cur = nx[0]
+                if seen != set(range((5 * v) // 8)):
+                    bad.append((v, sorted(seen)))
+            ctx.ob(R, b, "octets emitted per tail length == floor(5n/8)", not bad,
+                   "tail length -> octet helpers called: %s" % bad)
+    # base64 finalize: a pending partial group is an error
+    for fn in ("utils::base64::Decoder::<Builder>::finalize",):
+        b = F.body(fn)
+        if ctx.anchor(R, fn, b):
+            bodies = [b] + [cb for p, cb in F.bodies.items() if cb.root == fn or p.startswith(fn + "::{closure")]
+            ok = False
+            for bb_ in bodies:
+                for rb, si, kind, term in return_assignments(bb_):
+                    if kind != "Err":
+                        continue
+                    for tt, vv in bool_facts(bb_, rb, F):
+                        # (next & 0x0F) != 0  -> ShortInput
+                        if tt[0] == "bin" and tt[1] in ("Ne", "Eq") and const_value(tt[3]) == 0 and ((tt[1] == "Ne") == vv):
+                            l = deep_strip(tt[2])
+                            if l[0] == "bin" and l[1] == "BitAnd" and const_value(l[3]) == 0x0F:
+                                ok = True
+            ctx.ob(R, b, "partial group rejected", ok,
+                   "Base64 finalize must reject an unfinished group (state with a non-zero low nibble)")
+
+
+def _state_signature(b, pad_value):
+    """{(K, frozenset(facts on slot 3 vs the pad marker))} for every `self.next = K` (K constant)."""
+    sig = set()
+    for bi in sorted(b.reachable_blocks()):
+        for st in b.blocks[bi]["s"]:
+            if st[0] != "=" or len(st[1]) < 2:
+                continue
+            tgt = deep_strip(b.term_of_place(st[1]))
+            if not (tgt[0] == "field" and tgt[2] == "next"):
+                continue
+            k = const_value(b.term_of_rvalue(st[2]))
+            if k is None:
+                continue
+            facts = set()
+            for t, v in bool_facts(b, bi, F_GLOBAL[0]):
+                if t[0] == "bin" and t[1] in ("Eq", "Ne") and const_value(t[3]) == pad_value:
+                    lhs = deep_strip(t[2])
+                    if lhs[0] == "idx" and const_value(lhs[2]) is not None:
+                        eq = (t[1] == "Eq") == v
+                        if const_value(lhs[2]) == 3:
+                            facts.add((3, eq))
+            sig.add((k, frozenset(facts)))
+    return sig
+
+
+F_GLOBAL = [None]
+
+
+def rule_state(ctx, F):
+    R = "C18.state"
+    ctx.floor(R, 2)
+    F_GLOBAL[0] = F
+    padm = F.consts.get("utils::base64::PAD_MARKER", {}).get("value")
+    eof = F.consts.get("utils::base64::EOF_MARKER", {}).get("value")
+    a = F.body("utils::base64::Decoder::<Builder>::push")
+    c = F.body("utils::base64::SymbolConverter::process_char")
+    if not (ctx.anchor(R, "base64 Decoder::push", a) and ctx.anchor(R, "base64 SymbolConverter::process_char", c)
+            and ctx.anchor(R, "base64 PAD_MARKER/EOF_MARKER", padm is not None and eof is not None)):
+        return
+    sa, sc = _state_signature(a, padm), _state_signature(c, padm)
+    want = {(0, frozenset({(3, False)})), (eof, frozenset({(3, True)}))}
+    for b, s, nm in ((a, sa, "Decoder::push"), (c, sc, "SymbolConverter::process_char")):
+        ctx.ob(R, b, "group end: next=0 iff last symbol is data, next=EOF iff it is padding", s == want,
+               "%s: after a complete group the decoder must return to state 0 only when the fourth symbol "
+               "is data and enter the end-of-data state when it is '='; found transitions %s"
+               % (nm, sorted((k, sorted(f)) for k, f in s)))
+    # both reject input after the end-of-data state
+    for b, nm in ((a, "Decoder::push"), (c, "SymbolConverter::process_char")):
+        ok = False
+        for rb, si, kind, term in return_assignments(b):
+            if kind != "Err":
+                continue
+            for t, v in bool_facts(b, rb, F):
+                if t[0] == "bin" and t[1] == "Eq" and v and const_value(t[3]) == eof:
+                    lhs = deep_strip(t[2])
+                    if lhs[0] == "field" and lhs[2] == "next":
+                        ok = True
+        ctx.ob(R, b, "input after end-of-data is rejected", ok,
+               "%s must fail when called in the end-of-data state (next == EOF_MARKER)" % nm)
